@@ -227,3 +227,15 @@ Definition oracle_time_std (c : list (option Z) * list (option Z) * list (option
                         match t_offset x with Some o => Some (o * 60) | None => None end])
   | None => false
   end.
+
+(* every xs:duration spelling is accepted with the XSD components (judged on the implementation) *)
+Definition oracle_duration_accepts (c : duration_sp * str * option (bool * list (option Z)) * option str) : bool :=
+  let '(sp, s, obs, sec_text) := c in
+  negb (wf_duration sp && str_eqb s (lex_duration sp))
+  || match obs with
+     | Some (neg, comps) =>
+         Bool.eqb neg (du_sp_neg sp)
+         && loZ_eqb comps [val_comp (du_sp_y sp); val_comp (du_sp_mo sp); val_comp (du_sp_d sp); val_comp (du_sp_h sp); val_comp (du_sp_mi sp)]
+         && ostr_eqb sec_text (secs_text (du_sp_s sp))
+     | None => false
+     end.
